@@ -3,6 +3,7 @@ package qf1006
 import (
 	"go/ast"
 	"go/token"
+	"go/types"
 
 	"honnef.co/go/tools/analysis/code"
 	"honnef.co/go/tools/analysis/edit"
@@ -43,10 +44,65 @@ var Analyzer = SCAnalyzer.Analyzer
 
 var checkForLoopIfBreak = pattern.MustParse(`(ForStmt nil nil nil if@(IfStmt nil cond (BranchStmt "BREAK" nil) nil):_)`)
 
+// hasFloats reports whether any subexpression is of floating point type.
+func hasFloats(pass *analysis.Pass, expr ast.Expr) bool {
+	found := false
+	ast.Inspect(expr, func(node ast.Node) bool {
+		if expr, ok := node.(ast.Expr); ok {
+			if typ := pass.TypesInfo.TypeOf(expr); typ != nil {
+				if basic, ok := typ.Underlying().(*types.Basic); ok && basic.Info()&types.IsFloat != 0 {
+					found = true
+				}
+			}
+		}
+		return !found
+	})
+	return found
+}
+
+// hasBareCompositeLit reports whether expr, used as the condition of a
+// for statement, contains a composite literal that is not enclosed in
+// parentheses, brackets or a function body.
+func hasBareCompositeLit(expr ast.Expr) bool {
+	switch expr := expr.(type) {
+	case *ast.CompositeLit:
+		return true
+	case *ast.BinaryExpr:
+		return hasBareCompositeLit(expr.X) || hasBareCompositeLit(expr.Y)
+	case *ast.UnaryExpr:
+		return hasBareCompositeLit(expr.X)
+	case *ast.StarExpr:
+		return hasBareCompositeLit(expr.X)
+	case *ast.SelectorExpr:
+		return hasBareCompositeLit(expr.X)
+	case *ast.IndexExpr:
+		return hasBareCompositeLit(expr.X)
+	case *ast.SliceExpr:
+		return hasBareCompositeLit(expr.X)
+	case *ast.TypeAssertExpr:
+		return hasBareCompositeLit(expr.X)
+	case *ast.CallExpr:
+		return hasBareCompositeLit(expr.Fun)
+	default:
+		return false
+	}
+}
+
 func run(pass *analysis.Pass) (any, error) {
 	for node, m := range code.Matches(pass, checkForLoopIfBreak) {
 		pos := node.Pos() + token.Pos(len("for"))
-		r := astutil.NegateDeMorgan(m.State["cond"].(ast.Expr), false)
+		cond := m.State["cond"].(ast.Expr)
+		var r ast.Expr
+		if hasFloats(pass, cond) {
+			// !(a < b) is not the same as a >= b if either operand is NaN
+			r = &ast.UnaryExpr{Op: token.NOT, X: &ast.ParenExpr{X: cond}}
+		} else {
+			r = astutil.NegateDeMorgan(cond, false)
+		}
+		if hasBareCompositeLit(r) {
+			// 'for T{} != x {' does not parse
+			r = &ast.ParenExpr{X: r}
+		}
 
 		// FIXME(dh): we're leaving behind an empty line when we
 		// delete the old if statement. However, we can't just delete
